@@ -13,6 +13,7 @@ import (
 	"strconv"
 	"strings"
 	"sync"
+	"sync/atomic"
 	"syscall"
 	"testing"
 	"time"
@@ -163,11 +164,17 @@ func TestC23Child(t *testing.T) {
 			os.Exit(4) // the parent is gone
 		}
 	}
+	say("BOOT\n")
 	seed, err := strconv.ParseUint(os.Getenv(c23EnvSeed), 10, 64)
 	if err != nil {
 		say("FATAL bad seed\n")
 		os.Exit(5)
 	}
+	if err := sqlite3.Initialize(wazeroCacheDir()); err != nil {
+		say("FATAL sqlite3.Initialize: " + strings.ReplaceAll(err.Error(), "\n", " ") + "\n")
+		os.Exit(6)
+	}
+	say("INIT\n")
 	kv, err := newSqlite(os.Getenv(c23EnvDir))
 	if err != nil {
 		say("OPENFAIL " + strings.ReplaceAll(err.Error(), "\n", " ") + "\n")
@@ -175,7 +182,7 @@ func TestC23Child(t *testing.T) {
 	}
 	say("READY\n")
 	g := newC23Gen(seed)
-	deadline := time.Now().Add(90 * time.Second) // never outlive a lost parent
+	deadline := time.Now().Add(120 * time.Second) // never outlive a lost parent
 	for i := 0; ; i++ {
 		o := g.next()
 		say("S " + strconv.Itoa(i) + "\n")
@@ -217,7 +224,7 @@ func genKillPlan(r *rand.Rand) killPlan {
 	case 7, 8:
 		p.Index = 300 + r.IntN(1500)
 	default:
-		p.Index = 1800 + r.IntN(ev.Pick(2500, 9000)) // WAL grows past the auto-checkpoint size
+		p.Index = 1800 + r.IntN(ev.Pick(2500, 5000)) // WAL grows past the auto-checkpoint size
 	}
 	switch r.IntN(4) {
 	case 0:
@@ -238,9 +245,11 @@ type childRun struct {
 	exitErr  error
 	killedAt time.Duration
 	readyAt  time.Duration
+	bootAt   time.Duration
+	initAt   time.Duration
 	endAt    time.Duration
 	stderr   string
-	timeout  bool
+	timeout  atomic.Bool
 	extra    []string
 }
 
@@ -250,7 +259,9 @@ func runC23Child(ctx context.Context, dir string, seed uint64, plan killPlan) (*
 		return nil, err
 	}
 	cmd := exec.Command(os.Args[0], "-test.run", "^TestC23Child$", "-test.count", "1", "-test.timeout", "0")
-	cmd.Env = append(os.Environ(), c23EnvChild+"=c23", c23EnvDir+"="+dir, c23EnvSeed+"="+strconv.FormatUint(seed, 10))
+	// the child is one writer; a small GOMAXPROCS keeps dozens of concurrent
+	// children from thrashing the scheduler of a loaded machine
+	cmd.Env = append(os.Environ(), "GOMAXPROCS=2", c23EnvChild+"=c23", c23EnvDir+"="+dir, c23EnvSeed+"="+strconv.FormatUint(seed, 10))
 	cmd.ExtraFiles = []*os.File{pw}
 	var errBuf strings.Builder
 	cmd.Stdout = &errBuf
@@ -265,9 +276,18 @@ func runC23Child(ctx context.Context, dir string, seed uint64, plan killPlan) (*
 	var once sync.Once
 	kill := func() { once.Do(func() { cmd.Process.Signal(syscall.SIGKILL) }) }
 	t0 := time.Now()
-	// safety net: a child that never reaches the trigger is killed anyway
-	guard := time.AfterFunc(45*time.Second, func() { run.timeout = true; kill() })
+	// safety nets (a loaded machine can take many seconds to start a child):
+	// a child that is not ready after 150 s is given up (inconclusive); one
+	// that does not reach its trigger within 30 s of being ready is killed
+	// where it is, which is as good a kill point as any
+	guard := time.AfterFunc(150*time.Second, func() { kill() })
 	defer guard.Stop()
+	var guard2 *time.Timer
+	defer func() {
+		if guard2 != nil {
+			guard2.Stop()
+		}
+	}()
 	go func() {
 		<-ctx.Done()
 		kill()
@@ -279,9 +299,14 @@ func runC23Child(ctx context.Context, dir string, seed uint64, plan killPlan) (*
 	for sc.Scan() {
 		line := sc.Text()
 		switch {
+		case line == "BOOT":
+			run.bootAt = time.Since(t0)
+		case line == "INIT":
+			run.initAt = time.Since(t0)
 		case line == "READY":
 			run.ready = true
 			run.readyAt = time.Since(t0)
+			guard2 = time.AfterFunc(30*time.Second, func() { run.timeout.Store(true); kill() })
 		case strings.HasPrefix(line, "S "):
 			n, _ := strconv.Atoi(line[2:])
 			if n != run.started {
@@ -517,7 +542,7 @@ func oneKill(ctx context.Context, dir string, cs c23Case, m model) c23Outcome {
 	tr := time.Now()
 	defer func() {
 		if os.Getenv("VERIF_DEBUG") != "" {
-			fmt.Printf("DEBUG c23 chain=%d gen=%d ready=%v end=%v acked=%d parent-check=%v\n", cs.Chain, cs.Gen, run.readyAt, run.endAt, acked, time.Since(tr))
+			fmt.Printf("DEBUG c23 chain=%d gen=%d boot=%v init=%v ready=%v end=%v acked=%d parent-check=%v %s\n", cs.Chain, cs.Gen, run.bootAt, run.initAt, run.readyAt, run.endAt, acked, time.Since(tr), strings.TrimSpace(run.stderr))
 		}
 	}()
 	kv, err := newSqlite(dir)
@@ -582,10 +607,10 @@ func oneKill(ctx context.Context, dir string, cs c23Case, m model) c23Outcome {
 	if walSize >= 4000<<10 {
 		out.labels = append(out.labels, "wal-at-auto-checkpoint-size-at-kill")
 	}
-	if dbSize > 256<<10 {
+	if dbSize > 4096 {
 		out.labels = append(out.labels, "db-file-checkpointed-before-kill")
 	}
-	if run.timeout {
+	if run.timeout.Load() {
 		out.labels = append(out.labels, "kill:by-safety-timer")
 	}
 	out.sample = map[string]any{"case": cs, "acknowledged": acked, "in_flight_op": out.doc["in_flight_op"], "fate": fate, "wal_bytes_at_kill": walSize, "db_bytes_at_kill": dbSize}
@@ -649,9 +674,9 @@ func TestC23(t *testing.T) {
 		warm.Close()
 	}
 	gens := ev.Pick(3, 5)
-	kills := ev.N(36, 1200)
+	kills := ev.N(24, 600)
 	chains := (kills + gens - 1) / gens
-	workers := 12
+	workers := ev.Pick(8, 6)
 	base := t.TempDir()
 	seed := uint64(ev.ShardSeed())
 
